@@ -9,7 +9,7 @@
 
 enum { IN_TEXT, IN_RANDOM, IN_EMPTY };
 // script steps: action + cumulative input offset in units of 1/4 of the input (q=4 -> all input)
-enum { A_RUN = 'R', A_FLUSH = 'F', A_BARRIER = 'B', A_FINISH = 'X', A_UPDATE_OK = 'U', A_UPDATE_BAD = 'u', A_REINIT_SAME = 'S', A_REINIT_DIFF = 'D', A_REINIT_BIGGER_BLOCKS = 'G' };
+enum { A_RUN = 'R', A_FLUSH = 'F', A_BARRIER = 'B', A_FINISH = 'X', A_UPDATE_OK = 'U', A_UPDATE_BAD = 'u', A_REINIT_SAME = 'S', A_REINIT_DIFF = 'D', A_REINIT_BIGGER_BLOCKS = 'G', A_OFFER = 'P', A_UPDATE_ANY = 'V' };	// P: ONE lzma_code(LZMA_RUN) call offering everything up to the offset with one more byte of output space; V: filters_update whose outcome depends on whether a Block is open
 typedef struct { const char *script; int input, plen, bsz, threads, timeout, outchunk, inchunk, early; int bp, bt, bs; int tier; } row;
 // script syntax: pairs <action><quarter>, e.g. "R2X4" = RUN up to half the input, then FINISH with the rest.
 static const row ROWS[] = {
@@ -43,7 +43,9 @@ static const row ROWS[] = {
 	{ "B2B2F2X4",    IN_TEXT,    10,  4,  3,  0, 0,  0, 0,    1, 0, 0, 0 },
 	{ "F2U2X4",      IN_TEXT,    12,  4,  2,  0, 0,  0, 0,    1, 0, 0, 0 },	// filters_update between Blocks
 	{ "B2U2X4",      IN_TEXT,    12,  4,  2,  0, 0,  0, 0,    2, 0, 0, 1 },
-	{ "R1u1X4",      IN_TEXT,    12,  8,  2,  0, 0,  0, 0,    1, 0, 0, 0 },	// filters_update inside a Block: must be refused, encoder stays usable
+	{ "R1u1X4",      IN_TEXT,    12,  8,  2,  0, 0,  0, 0,    1, 0, 0, 0 },
+	{ "P4V0X4",      IN_TEXT,    8,   4,  1,  0, 0,  0, 0,    2, 0, 0, 0 },	// two Blocks offered in one call while the only worker may be busy, then an update: it applies from the first Block not yet started
+	{ "P4V0X4",      IN_TEXT,    12,  4,  2,  0, 0,  0, 0,    1, 0, 0, 0 },	// filters_update inside a Block: must be refused, encoder stays usable
 	{ "R2S0X4",      IN_TEXT,    10,  4,  2,  0, 0,  0, 0,    1, 0, 0, 0 },	// re-init with the same thread count mid-stream
 	{ "R2S0X4",      IN_TEXT,    8,   4,  2,  0, 0,  0, 0,    2, 0, 0, 1 },
 	{ "R2S0X4",      IN_TEXT,    10,  4,  3,  0, 5,  0, 0,    0, 0, 0, 0 },
@@ -69,7 +71,7 @@ static lzma_options_lzma opt, opt2; static lzma_options_delta odelta = { .type =
 
 #include "halloc.h"
 
-typedef struct { int r; size_t tout; uint64_t h; int bad; char why[96]; long leaked; int calls; } obs;
+typedef struct { int r; size_t tout; uint64_t h; int bad; char why[96]; long leaked; int calls; long chg_dyn; } obs;	// chg_dyn: Block index from which an accepted 'V' update applies, -1 refused, -2 no 'V' in the script
 static obs last, base;
 static size_t ocap; static int calls; static uint64_t maxpo; static int threads_now; static size_t bsz_now;
 #define BAD(o, ...) do { if (!(o)->bad) { (o)->bad = 1; snprintf((o)->why, sizeof (o)->why, __VA_ARGS__); } } while (0)
@@ -83,7 +85,7 @@ static int prefix_decodes(size_t clen, size_t n, obs *o) {	// without LZMA_FINIS
 }
 // feed plain[total_in..upto) with action a until it completes
 static lzma_ret step(lzma_stream *s, size_t upto, lzma_action a, obs *o, int probe) {
-	lzma_ret r; size_t fed = s->total_in; int stall = 0;
+	lzma_ret r; size_t fed = s->total_in + s->avail_in; int stall = 0;	// input offered earlier and still pending counts as given
 	for (;;) {
 		if (s->avail_in == 0 && fed < upto) { size_t n = R->inchunk && upto - fed > (size_t)R->inchunk ? (size_t)R->inchunk : upto - fed; s->next_in = plain + fed; s->avail_in = n; fed += n; }
 		if (s->avail_out == 0 && ocap < sizeof comp) { size_t g = R->outchunk ? (size_t)R->outchunk : sizeof comp; if (g > sizeof comp - ocap) g = sizeof comp - ocap; s->avail_out = g; ocap += g; }
@@ -110,7 +112,7 @@ static int expected_blocks(size_t *sz, uint64_t *chain_change_at) {
 	for (; *p; p += 2) { size_t upto = plen * (p[1] - '0') / 4; char a = p[0];
 		if (a == A_REINIT_SAME || a == A_REINIT_DIFF || a == A_REINIT_BIGGER_BLOCKS) { n = 0; start = 0; after_reinit = 1; *chain_change_at = (uint64_t)-1; if (a == A_REINIT_BIGGER_BLOCKS) bs = (size_t)R->bsz * 3; continue; }
 		if (a == A_UPDATE_OK) { *chain_change_at = n; continue; }
-		if (a == A_UPDATE_BAD) continue;
+		if (a == A_UPDATE_BAD || a == A_UPDATE_ANY || a == A_OFFER) continue;
 		if (after_reinit) { after_reinit = 0; }
 		if (a == A_FLUSH || a == A_BARRIER || a == A_FINISH) { size_t len = upto - start; while (len) { size_t c = len > bs ? bs : len; sz[n++] = c; len -= c; } start = upto; }
 		prev = upto; }
@@ -121,7 +123,7 @@ static void run_script(obs *o, int threads, int probe) {
 	memset(o, 0, sizeof *o); atomic_store(&a_live, 0); ocap = 0; calls = 0; maxpo = 0; bsz_now = 0;
 	lzma_stream s = LZMA_STREAM_INIT;
 	if (!enc_init(&s, threads)) { o->r = 98; BAD(o, "init failed"); return; }
-	s.next_out = comp; s.avail_out = 0; lzma_ret r = LZMA_OK;
+	s.next_out = comp; s.avail_out = 0; lzma_ret r = LZMA_OK; o->chg_dyn = -2;
 	for (const char *p = R->script; *p; p += 2) {
 		size_t upto = plen * (p[1] - '0') / 4;
 		switch (p[0]) {
@@ -130,6 +132,12 @@ static void run_script(obs *o, int threads, int probe) {
 		case A_BARRIER: r = step(&s, upto, LZMA_FULL_BARRIER, o, probe); if (r == LZMA_STREAM_END) r = LZMA_OK; else if (r != 77) BAD(o, "FULL_BARRIER returned %d", r); break;
 		case A_FINISH: r = step(&s, upto, LZMA_FINISH, o, probe); break;
 		case A_UPDATE_OK: { lzma_ret u = lzma_filters_update(&s, flt2); if (u != LZMA_OK) BAD(o, "filters_update between Blocks refused (%d)", u); break; }
+		case A_OFFER: { size_t fed = s.total_in + s.avail_in; if (s.avail_in == 0) s.next_in = plain + fed; if (upto > fed) s.avail_in += upto - fed; { size_t g = ocap == 0 ? 12 : 1; if (ocap + g <= sizeof comp) { s.avail_out += g; ocap += g; } }	/* exactly the Stream Header on the first call: the call returns while the input of later Blocks is still pending */
+			r = lzma_code(&s, LZMA_RUN); calls++; if (r != LZMA_OK) BAD(o, "single LZMA_RUN call returned %d", r); break; }
+		case A_UPDATE_ANY: { lzma_ret u = lzma_filters_update(&s, flt2); size_t bs = bsz_now ? bsz_now : (size_t)R->bsz; int boundary = s.total_in % bs == 0;
+			if (u == LZMA_OK) { if (!boundary) BAD(o, "filters_update accepted inside a Block (%llu bytes consumed)", (unsigned long long)s.total_in); o->chg_dyn = (long)(s.total_in / bs); }
+			else if (u == LZMA_PROG_ERROR && !boundary) o->chg_dyn = -1;
+			else BAD(o, "filters_update returned %d with %llu bytes consumed (block size %zu)", u, (unsigned long long)s.total_in, bs); break; }
 		case A_UPDATE_BAD: { lzma_ret u = lzma_filters_update(&s, flt2); if (u == LZMA_OK) BAD(o, "filters_update inside a Block accepted"); u = lzma_filters_update(&s, fltbad); if (u == LZMA_OK) BAD(o, "invalid chain accepted by filters_update"); break; }
 		case A_REINIT_SAME: case A_REINIT_DIFF: case A_REINIT_BIGGER_BLOCKS: {
 			int nt = p[0] != A_REINIT_DIFF ? threads : (threads == 1 ? 2 : threads - 1); if (p[0] == A_REINIT_BIGGER_BLOCKS) bsz_now = (size_t)R->bsz * 3;
@@ -155,10 +163,10 @@ static void validate(obs *o, const char *what) {
 	if (rr != REF_OK) { BAD(o, "%s: reference parser rejects the output (%d)", what, rr); return; }
 	if (info.streams != 1 || info.consumed != o->tout) { BAD(o, "%s: not exactly one Stream (streams=%u consumed=%zu/%zu)", what, info.streams, info.consumed, o->tout); return; }
 	if (ol != plen || memcmp(out2, plain, plen)) { BAD(o, "%s: output decodes to different data (len %zu vs %zu)", what, ol, plen); return; }
-	size_t exp[64]; uint64_t chg; int ne = expected_blocks(exp, &chg);
+	size_t exp[64]; uint64_t chg; int ne = expected_blocks(exp, &chg); if (o->chg_dyn != -2) chg = o->chg_dyn < 0 ? (uint64_t)-1 : (uint64_t)o->chg_dyn;
 	if ((int)info.nblk != ne) { BAD(o, "%s: %u Blocks, expected %d", what, info.nblk, ne); return; }
 	for (int i = 0; i < ne; i++) { if (info.blk_usize[i] != exp[i]) { BAD(o, "%s: Block %d has %llu bytes, expected %zu", what, i, (unsigned long long)info.blk_usize[i], exp[i]); return; } if (info.blk_usize[i] == 0) { BAD(o, "%s: empty Block", what); return; } }
-	if (chg != (uint64_t)-1) for (int i = 0; i < ne; i++) { int newchain = info.blk_chain[i] != info.blk_chain[0] || chg == 0; if ((i >= (int)chg) != newchain && chg != 0) { BAD(o, "%s: filter change took effect at the wrong Block (Block %d)", what, i); return; } }
+	if (chg != (uint64_t)-1) for (int i = 0; i < ne; i++) { int newchain = info.blk_chain[i] != info.blk_chain[0] || chg == 0; if ((i >= (int)chg) != newchain && chg != 0 && chg < (uint64_t)ne) { BAD(o, "%s: filter change took effect at the wrong Block (Block %d)", what, i); return; } }
 	// liblzma's own single-threaded decoder agrees
 	{ lzma_stream d = LZMA_STREAM_INIT; if (lzma_stream_decoder(&d, UINT64_MAX, 0) == LZMA_OK) { d.next_in = comp; d.avail_in = o->tout; d.next_out = dec; d.avail_out = sizeof dec; lzma_ret r; int c = 0; while ((r = lzma_code(&d, LZMA_FINISH)) == LZMA_OK && c++ < 3) {}
 		if (r != LZMA_STREAM_END || d.total_out != plen || memcmp(dec, plain, plen)) BAD(o, "%s: liblzma decoder result %d", what, r); lzma_end(&d); } }
@@ -168,7 +176,7 @@ static int quiet_check;
 static int check_one(void) {
 	if (!quiet_check) n_exec++;
 	validate(&last, "mt");
-	if (!last.bad && last.r != 77 && (last.tout != base_len || memcmp(comp, base_out, base_len))) BAD(&last, "bytes differ from the threads=1 / default-schedule output (%zu vs %zu bytes)", last.tout, base_len);
+	if (!last.bad && last.r != 77 && last.chg_dyn == -2 && (last.tout != base_len || memcmp(comp, base_out, base_len))) BAD(&last, "bytes differ from the threads=1 / default-schedule output (%zu vs %zu bytes)", last.tout, base_len);
 	if (!last.bad && last.leaked) BAD(&last, "allocator balance: %ld blocks live after lzma_end", last.leaked);
 	uint64_t k = h_fnv(&last.r, sizeof last.r, 0); k = h_fnv(&last.h, 8, k); h_set_add(&obsset, k);
 	if (last.bad && quiet_check) return 1;
